@@ -73,7 +73,7 @@ func genGroup(r *hk.Rand) *group {
 			sh.BodyKind, sh.MPFiles, sh.Chunked = "bytes", nil, false
 			sh.Body = hk.Pick(r, bodies)
 		}
-		p.After = nil
+		p.After, p.Reexec, p.Wrap = nil, nil, base.Wrap
 		p.ClientOps = append([]rop{}, clientOps...)
 		own := 410 + m
 		p.ReqOps = nil
